@@ -496,13 +496,22 @@ func (m *MdnsManager) processMdnsEntry(elements map[string]string, name, host st
 		return
 	}
 
-	// remove IPv6 local link addresses
+	// remove IPv6 local link addresses and addresses that are listed more than once
 	var newAddresses []net.IP
 	for _, address := range addresses {
 		if address.To4() == nil && address.IsLinkLocalUnicast() {
 			continue
 		}
-		newAddresses = append(newAddresses, address)
+		isNewAddress := true
+		for _, item := range newAddresses {
+			if item.String() == address.String() {
+				isNewAddress = false
+				break
+			}
+		}
+		if isNewAddress {
+			newAddresses = append(newAddresses, address)
+		}
 	}
 	addresses = newAddresses
 
